@@ -1,0 +1,26 @@
+//go:build verif
+
+package diskwriter
+
+import "os"
+
+// Exports for the C19 (path confinement) correspondence driver.  Add-only.
+
+func VerifPathsSanitise(s string) string { return sanitise(s) }
+
+// VerifPathsOpenDiskFile creates a recording file for username in directory
+// exactly as a disk connection does and returns the name reported by the
+// file (the file is left in place, empty).
+func VerifPathsOpenDiskFile(directory, username, extension string) (string, error) {
+	root, err := os.OpenRoot(directory)
+	if err != nil {
+		return "", err
+	}
+	defer root.Close()
+	f, err := openDiskFile(root, username, extension)
+	if err != nil {
+		return "", err
+	}
+	defer f.Close()
+	return f.Name(), nil
+}
